@@ -1,3 +1,4 @@
 -- Root of the `Strengths` library: everything that `lake build` (setup) must check.
 import Strengths.Driver.All
 import Strengths.Props.C06
+import Strengths.Props.C01
